@@ -59,7 +59,169 @@ pub fn run(op: &str, case: &Value) -> Value {
                 }
             }
         }
+        "hval" => {
+            let v = get_bytes(case, "v");
+            m.insert("v".into(), jbytes(&v));
+            match guarded(|| c::normalize_header_value(&v)) {
+                Ok(out) => res_ok(&mut m, &out),
+                Err(p) => res_other(&mut m, "panic", &p),
+            }
+        }
+        "ts" => ts(case, &mut m),
+        "key" => key(case, &mut m),
         _ => unreachable!(),
     }
     Value::Object(m)
+}
+
+fn blank_ts(m: &mut Map<String, Value>) {
+    m.insert("inst".into(), json!([0, 0, 0]));
+    m.insert("civil".into(), json!([0, 0, 0, 0, 0, 0]));
+    m.insert("stsline".into(), json!([]));
+    m.insert("scopedate".into(), json!([]));
+}
+
+/// C16: the only public route to the timestamp parser is the (unstable) authenticator factory.
+fn ts(case: &Value, m: &mut Map<String, Value>) {
+    use chrono::{Datelike, Timelike};
+    let s = get_bytes(case, "s");
+    m.insert("s".into(), jbytes(&s));
+    blank_ts(m);
+    let st = match String::from_utf8(s) {
+        Ok(x) => x,
+        Err(_) => return res_other(m, "inadm", "not utf-8"),
+    };
+    let r = guarded(|| {
+        let req = http::Request::builder().method("GET").uri("/").header("host", "example.com").body(()).unwrap();
+        let (parts, _) = req.into_parts();
+        let (creq, _, _) = c::CanonicalRequest::from_request_parts(
+            parts,
+            bytes::Bytes::new(),
+            scratchstack_aws_signature::SignatureOptions::default(),
+        )
+        .expect("fixed request");
+        let mut b = scratchstack_aws_signature::auth::SigV4Authenticator::builder();
+        b.credential("AKIDEXAMPLE/20150830/us-east-1/service/aws4_request".to_string());
+        b.signature("00".to_string());
+        let ap = c::AuthParams {
+            builder: b,
+            signed_headers: vec!["host".to_string()],
+            timestamp_str: st,
+        };
+        creq.get_authenticator_from_auth_parameters(ap).map(|a| (a.request_timestamp(), a.get_string_to_sign()))
+    });
+    match r {
+        Err(p) => res_other(m, "panic", &p),
+        Ok(Err(e)) => res_err(m, &e),
+        Ok(Ok((t, sts))) => {
+            res_ok(m, &[]);
+            let d = t.date_naive();
+            m.insert(
+                "inst".into(),
+                json!([d.num_days_from_ce(), t.time().num_seconds_from_midnight(), t.time().nanosecond()]),
+            );
+            m.insert("civil".into(), json!([d.year(), d.month(), d.day(), t.hour(), t.minute(), t.second()]));
+            let line: Vec<u8> = sts.split(|b| *b == b'\n').nth(1).unwrap_or(&[]).to_vec();
+            m.insert("stsline".into(), jbytes(&line));
+            // the date the library would put in the provider request / compare the scope with
+            m.insert("scopedate".into(), jbytes(d.format("%Y%m%d").to_string().as_bytes()));
+        }
+    }
+}
+
+fn from_str_cap<const M: usize>(s: &str) -> Result<Result<(), ()>, String> {
+    use std::str::FromStr;
+    guarded(|| scratchstack_aws_signature::KSecretKey::<M>::from_str(s).map(|_| ()).map_err(|_| ()))
+}
+
+/// C06: secret-key construction for several capacities; full derivation chain for the default type.
+fn key(case: &Value, m: &mut Map<String, Value>) {
+    use scratchstack_aws_signature::KSecretKey;
+    use std::str::FromStr;
+    let secret = get_bytes(case, "secret");
+    let cap = get_i64(case, "cap");
+    let region = get_bytes(case, "region");
+    let service = get_bytes(case, "service");
+    let date: Vec<i64> = case.get("date").and_then(|v| v.as_array()).map(|a| a.iter().map(|x| x.as_i64().unwrap_or(0)).collect()).unwrap_or_default();
+    m.insert("secret".into(), jbytes(&secret));
+    m.insert("region".into(), jbytes(&region));
+    m.insert("service".into(), jbytes(&service));
+    for k in ["readback", "kdate", "kregion", "kservice", "ksigning", "oracle"] {
+        m.insert(k.into(), json!([]));
+    }
+    let (ss, rs, sv) = match (std::str::from_utf8(&secret), std::str::from_utf8(&region), std::str::from_utf8(&service)) {
+        (Ok(a), Ok(b), Ok(c)) => (a, b, c),
+        _ => return res_other(m, "inadm", "not utf-8"),
+    };
+    let r = match cap {
+        0 => from_str_cap::<0>(ss),
+        3 => from_str_cap::<3>(ss),
+        4 => from_str_cap::<4>(ss),
+        5 => from_str_cap::<5>(ss),
+        8 => from_str_cap::<8>(ss),
+        44 => from_str_cap::<44>(ss),
+        64 => from_str_cap::<64>(ss),
+        100 => from_str_cap::<100>(ss),
+        _ => return res_other(m, "inadm", "capacity not instantiated"),
+    };
+    match r {
+        Err(p) => return res_other(m, "panic", &p),
+        Ok(Err(())) => {
+            res_other(m, "err", "Key too long");
+            m.insert("kind".into(), json!("KeyTooLong"));
+            return;
+        }
+        Ok(Ok(())) => {}
+    }
+    res_ok(m, &[]);
+    if cap != 44 || date.len() != 3 {
+        return;
+    }
+    let nd = match chrono::NaiveDate::from_ymd_opt(date[0] as i32, date[1] as u32, date[2] as u32) {
+        Some(d) => d,
+        None => return res_other(m, "inadm", "no such date"),
+    };
+    let r = guarded(|| {
+        let k = KSecretKey::from_str(ss).unwrap();
+        let rb: Vec<u8> = AsRef::<[u8]>::as_ref(&k).to_vec();
+        let kd = k.to_kdate(nd);
+        let kr = [k.to_kregion(nd, rs), kd.to_kregion(rs)];
+        let kv = [k.to_kservice(nd, rs, sv), kd.to_kservice(rs, sv), kr[0].to_kservice(sv)];
+        let kg = [k.to_ksigning(nd, rs, sv), kd.to_ksigning(rs, sv), kr[0].to_ksigning(sv), kv[0].to_ksigning()];
+        (
+            rb,
+            vec![kd.as_ref().to_vec()],
+            kr.iter().map(|x| x.as_ref().to_vec()).collect::<Vec<_>>(),
+            kv.iter().map(|x| x.as_ref().to_vec()).collect::<Vec<_>>(),
+            kg.iter().map(|x| x.as_ref().to_vec()).collect::<Vec<_>>(),
+        )
+    });
+    match r {
+        Err(p) => res_other(m, "panic", &p),
+        Ok((rb, kd, kr, kv, kg)) => {
+            let arr = |v: &Vec<Vec<u8>>| Value::Array(v.iter().map(|x| jbytes(x)).collect());
+            m.insert("readback".into(), jbytes(&rb));
+            m.insert("kdate".into(), arr(&kd));
+            m.insert("kregion".into(), arr(&kr));
+            m.insert("kservice".into(), arr(&kv));
+            m.insert("ksigning".into(), arr(&kg));
+            // the harness's own evaluation of the four HMAC steps; TLC checks the wiring of the inputs
+            let mut k0 = b"AWS4".to_vec();
+            k0.extend_from_slice(&secret);
+            let m1 = format!("{:04}{:02}{:02}", date[0], date[1], date[2]).into_bytes();
+            let o1 = crate::sha::hmac_sha256(&k0, &m1);
+            let o2 = crate::sha::hmac_sha256(&o1, &region);
+            let o3 = crate::sha::hmac_sha256(&o2, &service);
+            let o4 = crate::sha::hmac_sha256(&o3, b"aws4_request");
+            m.insert(
+                "oracle".into(),
+                json!([
+                    {"key": jbytes(&k0), "msg": jbytes(&m1), "out": jbytes(&o1)},
+                    {"key": jbytes(&o1), "msg": jbytes(&region), "out": jbytes(&o2)},
+                    {"key": jbytes(&o2), "msg": jbytes(&service), "out": jbytes(&o3)},
+                    {"key": jbytes(&o3), "msg": jbytes(b"aws4_request"), "out": jbytes(&o4)},
+                ]),
+            );
+        }
+    }
 }
